@@ -14,7 +14,16 @@
      input  = mode(0 PerformLayout 1 ComputeSize 2 Hidden) sizing(0 inherent 1 content) axis(0 h 1 v 2 both) known(w h: flag bits)
               parent(w h) avail(w h: 0 definite bits / 1 min / 2 max) collapsible(start end)
      answer = size(w h) content_size(w h) first_baselines.y(flag bits)
-   result = events: `0 child input` per Query, `1 child layout(21)` per SetLayout, `2 output(8)`; `9` if the answers ran out *)
+   result = events: `0 child input` per Query, `1 child layout(21)` per SetLayout, `2 output(8)`.
+   Markers (never a normal-looking value; lib/props/_gridalg.py counts every one as a STRUCTURAL disagreement):
+     [-2] the recorded answers ran out (the resumption asks more than the implementation did; printed after the events so far)
+     [-3] the model of a Rust panic was evaluated (Model/GridAlg.v `grid_no_panic` fails: `grid_alg` answers `Ret panic_out` there -- the
+          harness never prints a case on which the implementation panicked, so this is a disagreement about WHETHER it panics);
+          printed INSTEAD of the events
+     [-4] the case does not decode
+     [-5; n] n recorded answers were left over when the resumption returned (it asks less than the implementation did)
+   NOT marked: exhaustion of the fuel of the sizing loops (Model/GridTracks.v distribute_loop / fr_loop, Model/GridIntrinsic.v batch_loop,
+   Model/GridAlg.v m_batch_loop / m_baseline_rows return the state reached so far): exposing it needs an option-valued model. *)
 From Coq Require Import ZArith NArith Bool List.
 From TV Require Import Num.Num Num.F32 Model.Common Model.Leaf Gen.GridTracksGen Model.GridTracks Model.GridTracksRun.
 From TV Require Import Model.GridAlgBase Model.GridAlg.
@@ -127,11 +136,15 @@ Definition enc_output (o : LayoutOutput f32) : list Z :=
 Fixpoint walk (a : Engine.Alg (GIn f32) (LayoutOutput f32) (GLay f32)) (answers : list (LayoutOutput f32)) (acc : list (list Z))
   : list (list Z) :=
   match a with
-  | Engine.Ret _ _ _ o => (2 :: enc_output o) :: acc
+  | Engine.Ret _ _ _ o =>
+      match answers with
+      | [] => (2 :: enc_output o) :: acc
+      | _ => [-5; Z.of_nat (length answers)] :: (2 :: enc_output o) :: acc
+      end
   | Engine.Query _ _ _ c i k =>
       match answers with
       | o :: rest => walk (k o) rest ((0 :: Z.of_nat c :: enc_input i) :: acc)
-      | [] => [9] :: (0 :: Z.of_nat c :: enc_input i) :: acc
+      | [] => [-2] :: (0 :: Z.of_nat c :: enc_input i) :: acc
       end
   | Engine.SetLayout _ _ _ c l k => walk k answers ((1 :: Z.of_nat c :: enc_layout l) :: acc)
   end.
@@ -143,8 +156,11 @@ Definition run_case (c : list Z) : list Z :=
   | n :: r3 =>
       let '(kids, r4) := dec_styles (Z.to_nat n) r3 in
       match r4 with
-      | nq :: r5 => concat (rev (walk (grid_alg st kids inp) (dec_answers (Z.to_nat nq) r5) []))
-      | [] => [8]
+      | nq :: r5 =>
+          if Z.of_nat (length r5) <? 6 * nq then [-4]
+          else if negb (grid_no_panic st kids inp) then [-3]
+          else concat (rev (walk (grid_alg st kids inp) (dec_answers (Z.to_nat nq) r5) []))
+      | [] => [-4]
       end
-  | [] => [8]
+  | [] => [-4]
   end.
